@@ -4,7 +4,11 @@ EXTENDS Formak
 SensShapes == {<<1>>, <<2>>, <<3>>, <<1, 2>>, <<2, 1>>, <<2, 2>>, <<1, 3>>, <<1, 1, 2>>}
 cShapes == {[nS |-> a, nC |-> b, nK |-> c, sens |-> s] : a \in 1..3, b \in 0..2, c \in 0..2, s \in SensShapes}
 cShapesNoSens == {[nS |-> a, nC |-> b, nK |-> c, sens |-> <<>>] : a \in 1..3, b \in 0..2, c \in 0..2}
+cShapesAll == cShapes \cup cShapesNoSens
+cShapesC12 == {[nS |-> a, nC |-> b, nK |-> c, sens |-> s] : a \in 1..2, b \in 0..2, c \in 0..1, s \in {<<>>, <<2>>, <<1, 2>>, <<1, 1, 2>>}}
+cActsNone == {}
 cSyms == SymPool
+cActsEval == {"ModelEval", "JacEval", "SensEval"}
 cSensors == SensorPool
 cReadings == ReadingPool
 cOpsAll == {"add","sub","mul","div","neg","pow2","pow3","sin","cos","exp","tanh","atan","sqrt1","log1"}
